@@ -427,6 +427,8 @@ def ref_decode(t: T, d, fam: Family, ns):
             if type(d) is type(v) and d == v:
                 return v
         raise RefError("no literal of that class and value")
+    if k == "union":
+        return ref_decode_union(t, d, fam, ns)
     raise RefError(f"ref_decode: kind {k}")
 
 
@@ -504,3 +506,30 @@ def conforms(t: T, r, fam: Family, ns) -> bool:
         spec = fam.get(t.name)
         return type(r) is dict and all(conforms(f.ty, r[f.name], fam, ns) for f in spec.fields if f.name in r)
     return False
+
+
+# ---------------------------------------------------------------------------
+# round 7: unions on the decoding side (documented reading: the members are tried in their order; a primitive member int / float / bool /
+# str / None takes a value of EXACTLY its class as it is and nothing else at this stage; any other member takes the value if its
+# constructor accepts it; the constructors of the primitive members come last, in member order)
+# ---------------------------------------------------------------------------
+
+def ref_decode_union(t: T, d, fam: Family, ns):
+    import copy
+    prim = {"int": int, "float": float, "bool": bool, "str": str, "none": type(None)}
+    for m in t.args:
+        if m.kind in prim:
+            if type(d) is prim[m.kind]:
+                return d
+        else:
+            try:
+                return ref_decode(m, copy.deepcopy(d), fam, ns)
+            except RefError:
+                pass
+    for m in t.args:
+        if m.kind in prim:
+            try:
+                return ref_decode(m, d, fam, ns)
+            except RefError:
+                pass
+    raise RefError("no union member accepts the value")
